@@ -59,7 +59,7 @@ ASSUMPTIONS = [
 REQUIRED = ["tables_exhaustive", "tables_random", "is_single_root_checked", "has_cyclic_checked",
             "is_sorted_checked", "is_bifurcate_checked", "cyclic_tables", "forest_tables",
             "dsu_histories", "dsu_pair_queries", "dsu_invariant_evaluations", "dsu_histories_interleaved",
-            "dsu_library_use_between_queries", "repair_off",
+            "dsu_library_use_between_queries", "older_checker_names", "tree_level_checker", "repair_off",
             "repair_somas", "repair_nearest", "repair_table_functions", "repair_three_or_more_roots",
             "step_budget_calls", "frames_with_other_index", "rejected_calls_before_has_cyclic",
             "tables_regular_families", "checkers_on_int32_arrays",
@@ -207,6 +207,28 @@ def check_table(ctx, case):
     call("is_bifurcate(exclude_root=True)",
          lambda: su.is_bifurcate((ids, pids), exclude_root=True),
          all(v <= 2 for k, v in cnt.items() if k not in roots))
+    # the same questions through the older names the library still exports (table form), and
+    # through the tree-level front end for tables that are trees
+    import warnings as _w
+
+    with _w.catch_warnings():
+        _w.simplefilter("ignore")
+        call("is_single_root", lambda: su.check_single_root(df), conn)
+        for ex_ in (True, False):
+            call(f"is_bifurcate(exclude_root={ex_})",
+                 lambda ex_=ex_: (su.is_binary_tree(df, ex_) if n % 2 else
+                                  su.is_binary_tree(df, exclude_root=ex_)),
+                 all(v <= 2 for k, v in cnt.items() if not (ex_ and k in roots)))
+        ctx.count("older_checker_names")
+        if positional and conn and not cyc and roots == {0} and n >= 1:
+            from swcgeom.core import Tree, tree_utils
+
+            tr_ = Tree(n, pid=pids.astype(np.int32))
+            for ex_ in (True, False):
+                call(f"is_bifurcate(exclude_root={ex_})",
+                     lambda ex_=ex_: tree_utils.is_binary_tree(tr_, ex_),
+                     all(v <= 2 for k, v in cnt.items() if not (ex_ and k in roots)))
+            ctx.count("tree_level_checker")
     if positional and conn and not cyc and len(roots) == 1 and n > 1:
         # diagnosis must agree with the library's own sorter: a connected acyclic single-rooted
         # table sorts, and the sorted table is reported sorted
